@@ -69,6 +69,9 @@ func (e *Exec) verifyFunction(fn *ssa.Function, sp *FuncSpec) {
 		}
 		st.pc = append(st.pc, g)
 	}
+	for _, lm := range sp.Lemmas {
+		e.proveLemma(st, name, sp, lm, env)
+	}
 	// vacuity guard: the precondition must be satisfiable
 	cov := e.oblige(st, name+"/cover:pre", append(append([]string{}, sp.Props...), sp.SafetyProps...), BoolLit(true), "precondition is satisfiable")
 	cov.Cover = true
@@ -752,3 +755,81 @@ func aggregate(obls []*Obligation) []*AggOb {
 }
 
 var _ = types.Typ
+
+// proveLemma: ghost call of a verified functional contract at entry (see Lemma). Everything it adds to the path
+// condition is either an obligation that was just emitted or a postcondition instance of that contract.
+func (e *Exec) proveLemma(st *State, name string, sp *FuncSpec, lm Lemma, env *specEnv) {
+	label := lm.Clause.Label
+	props := lm.Clause.Props
+	if len(props) == 0 {
+		props = append(append([]string{}, sp.Props...), sp.SafetyProps...)
+	}
+	fail := func(msg string) {
+		e.notes = appendUnique(e.notes, fmt.Sprintf("%s: lemma %s: %s", name, label, msg))
+		e.oblige(st, name+"/lemma:"+label, props, BoolLit(false), msg)
+	}
+	csp := e.specs.Lookup(lm.Callee)
+	callee := e.ld.funcs[lm.Callee]
+	if csp == nil || callee == nil {
+		fail("the function " + lm.Callee + " or its contract is gone")
+		return
+	}
+	if csp.Functional == "" || csp.Trusted || len(csp.Modifies) > 0 {
+		fail("a lemma may only instantiate a verified `functional` contract without a modifies clause; " + lm.Callee + " is not one")
+		return
+	}
+	if len(lm.Args) != len(callee.Params) {
+		fail(fmt.Sprintf("%s takes %d arguments, the lemma gives %d", lm.Callee, len(callee.Params), len(lm.Args)))
+		return
+	}
+	var args []SV
+	for i, a := range lm.Args {
+		sv, err := e.evalSpec(a, env)
+		if err != nil {
+			fail(fmt.Sprintf("argument %d cannot be evaluated: %v", i+1, err))
+			return
+		}
+		sv.T = callee.Params[i].Type()
+		args = append(args, sv)
+	}
+	vars := map[string]SV{}
+	bindParams(callee, func(i int, p *ssa.Parameter) (SV, bool) { return args[i], true }, vars)
+	pre := st.clone()
+	cenv := &specEnv{goal: true, into: st, st: st, old: pre, vars: vars, oldVars: vars, pkg: pkgOf(callee)}
+	for _, rq := range csp.Requires {
+		g, err := e.evalSpecBool(rq.Expr, cenv)
+		if err != nil {
+			fail(fmt.Sprintf("requires %s of %s cannot be evaluated: %v", rq.Label, lm.Callee, err))
+			return
+		}
+		e.oblige(st, fmt.Sprintf("%s/lemma-pre:%s:%s", name, label, rq.Label), props, g, "precondition of "+lm.Callee+" at the lemma's arguments")
+		st.pc = append(st.pc, g)
+	}
+	var rt types.Type = callee.Signature.Results()
+	if callee.Signature.Results().Len() == 1 {
+		rt = callee.Signature.Results().At(0).Type()
+	}
+	res := e.freshSV("lemma."+callee.Name(), rt)
+	e.wfAssume(st, res)
+	var as []Term
+	for _, a := range args {
+		as = append(as, a.L...)
+	}
+	for k := range res.L {
+		st.pc = append(st.pc, Eq(res.L[k], e.ctx.uf(functionalName(csp.Functional, k, len(res.L)), res.L[k].Sort, as...)))
+	}
+	e.bindResults(vars, callee, csp, res)
+	env2 := &specEnv{noTrace: true, into: st, st: st, old: pre, vars: vars, oldVars: vars, pkg: pkgOf(callee)}
+	for _, en := range csp.Ensures {
+		if g, err := e.evalSpecBool(en.Expr, env2); err == nil {
+			st.pc = append(st.pc, g)
+		}
+	}
+	g, err := e.evalSpecBool(lm.Clause.Expr, env)
+	if err != nil {
+		fail(fmt.Sprintf("cannot be evaluated on the current code: %v", err))
+		return
+	}
+	e.oblige(st, name+"/lemma:"+label, props, g, lm.Clause.Src)
+	st.pc = append(st.pc, g)
+}
